@@ -147,29 +147,35 @@ def plans(draw):
 @st.composite
 def doc_cases(draw, large=False):
     k = 2 if large else 1
+    # plan and options first: a long document may use up Hypothesis' entropy, later draws then fall back to minimal values
+    plan = draw(plans())
+    opts = draw(newick_options())
     doc = draw(st.one_of(docs.newick_docs(max_taxa=6, max_trees=4 * k),
                          docs.nexus_docs(max_taxa=5, max_chars=6 * k, max_trees=3, max_tree_blocks=3),
                          docs.nexus_docs(max_taxa=5, max_chars=6 * k, max_trees=3, max_tree_blocks=3)))
-    return {"doc": doc, "opts": fit_options(doc, draw(newick_options())), "plan": draw(plans())}
+    return {"doc": doc, "opts": fit_options(doc, opts), "plan": plan}
 
 
 @st.composite
 def rich_cases(draw, large=False):
     k = 2 if large else 1
+    plan = draw(plans())
+    opts = draw(newick_options())
+    want_weights = draw(st.booleans())
     recase = draw(st.integers(0, 3)) == 0
     doc = draw(st.one_of(c13_docs.rich_newick_docs(max_taxa=6, max_trees=4 * k, recase=recase),
                          c13_docs.rich_nexus_docs(max_taxa=5, max_trees=3, max_blocks=3, max_chars=6, recase=recase),
                          c13_docs.rich_nexus_docs(max_taxa=5, max_trees=3, max_blocks=3, max_chars=6, recase=recase)))
-    opts = draw(newick_options())
-    if doc["features"]["weight"] and draw(st.booleans()):
+    if doc["features"]["weight"] and want_weights:
         opts["store_tree_weights"] = True
-    return {"doc": doc, "opts": fit_options(doc, opts), "plan": draw(plans())}
+    return {"doc": doc, "opts": fit_options(doc, opts), "plan": plan}
 
 
 @st.composite
 def nexml_cases(draw, large=False):
-    return {"doc": draw(c13_docs.nexml_recipes(max_taxa=5 if not large else 8)), "opts": draw(nexml_options()),
-            "plan": draw(plans())}
+    plan = draw(plans())
+    opts = draw(nexml_options())
+    return {"doc": draw(c13_docs.nexml_recipes(max_taxa=5 if not large else 8)), "opts": opts, "plan": plan}
 
 
 # ---------------------------------------------------------------------------
